@@ -158,8 +158,12 @@ def impUids (imports : List ImpEntry) (sp : Sp) : List Nat :=
 def fixOwned (fi gi mi : List Item) (tbl : List (Nat × List Ref)) (owners : List Nat) : Option (List (Nat × List Ref)) :=
   owners.mapM (fun (u : Nat) => (mapRefs fi gi mi (lookup tbl u)).map (fun (rs : List Ref) => (u, rs)))
 
+/-- replace the sites of an existing owner (the fix-up happens in place; nothing is ever added) -/
+def updAssoc (l : List (Nat × List Ref)) (k : Nat) (v : List Ref) : List (Nat × List Ref) :=
+  l.map (fun (p : Nat × List Ref) => if p.1 == k then (k, v) else p)
+
 def storeBack (tbl : List (Nat × List Ref)) (fixed : List (Nat × List Ref)) : List (Nat × List Ref) :=
-  fixed.foldl (fun (acc : List (Nat × List Ref)) (p : Nat × List Ref) => setAssoc acc p.1 p.2) tbl
+  fixed.foldl (fun (acc : List (Nat × List Ref)) (p : Nat × List Ref) => updAssoc acc p.1 p.2) tbl
 
 def emittedLocals (items : List Item) : List Nat :=
   (items.filter (fun (i : Item) => !i.imp && !i.del)).map (fun (i : Item) => i.uid)
@@ -173,48 +177,55 @@ def fixData (fi gi mi : List Item) (d : Ref × List Ref) : Option ((Ref × List 
   | some off, some mem => some ((d.1, off), mem)
   | _, _ => none
 
+/-- everything `encode_internal` rewrites, after rewriting -/
+structure Fixed where
+  ginit : List (Nat × List Ref)
+  exps : List Ref
+  elems : List Ref
+  raws : List Ref
+  code : List (Nat × List Ref)
+  datas : List ((Ref × List Ref) × Ref)
+
+/-- the reference rewriting of `encode_internal` in section order (globals, exports, elements and the constant
+    expressions kept as parsed, code, data); `none` = one of the `panic!`s on a missing map entry -/
+def fixAll (fi gi mi : List Item) (s : St) : Option Fixed :=
+  -- globals: initialisers of the emitted local globals, fixed in place
+  (fixOwned fi gi mi s.ginit (emittedLocals gi)).bind fun ginit' =>
+  -- exports: function, memory and global indices mapped on the fly
+  (((s.exports.filter (fun (e : Ref × Bool) => !e.2)).map (fun (e : Ref × Bool) => e.1)).mapM (mapExport fi gi mi)).bind fun exps =>
+  (mapRefs fi gi mi s.elems).bind fun elems =>
+  (mapRefs fi gi mi s.raws).bind fun raws =>
+  -- code: emitted local functions in vector order, sites fixed in place
+  (fixOwned fi gi mi s.code (emittedLocals fi)).bind fun code' =>
+  -- data: offset expression in place, memory index on the fly
+  (s.datas.mapM (fixData fi gi mi)).bind fun ds =>
+  some { ginit := ginit', exps := exps, elems := elems, raws := raws, code := code', datas := ds }
+
+def Fixed.resolved (x : Fixed) : List Ref :=
+  (x.ginit.flatMap (fun (p : Nat × List Ref) => p.2)) ++ x.exps ++ x.elems ++ x.raws
+    ++ (x.code.flatMap (fun (p : Nat × List Ref) => p.2))
+    ++ (x.datas.flatMap (fun (d : (Ref × List Ref) × Ref) => d.2 :: d.1.2))
+
 /-- `encode_internal`, restricted to index spaces and reference sites; returns the state as the code leaves it
     (vectors reorganised, in-place sites rewritten, start stored back, flags untouched) -/
 def encode (s : St) : St × Ret :=
   match remap s.f, remap s.g, remap s.m with
   | some fi, some gi, some mi =>
-    let s : St := { s with f := { s.f with items := fi }, g := { s.g with items := gi }, m := { s.m with items := mi } }
     -- start: mapped and stored back, dropped when absent
     let start' : Option Ref := s.start.bind (mapRef fi gi mi)
-    let s : St := { s with start := start' }
-    -- index spaces of the output: imports in `imports` order, then the locals of each vector in vector order
-    let fspace := impUids s.imports Sp.F ++ emittedLocals fi
-    -- the memory loop does not test `deleted`
-    let mspace := impUids s.imports Sp.M ++ (mi.filter (fun (i : Item) => !i.imp)).map (fun (i : Item) => i.uid)
-    let gspace := impUids s.imports Sp.G ++ emittedLocals gi
-    -- globals: initialisers of the emitted local globals, fixed in place
-    match fixOwned fi gi mi s.ginit (emittedLocals gi) with
-    | none => (s, Ret.panic "Deleted global/function in a global initialiser")
-    | some ginit' =>
-      let s : St := { s with ginit := storeBack s.ginit ginit' }
-      let live : List Ref := (s.exports.filter (fun (e : Ref × Bool) => !e.2)).map (fun (e : Ref × Bool) => e.1)
-      match live.mapM (mapExport fi gi mi) with
-      | none => (s, Ret.panic "export of a deleted function or memory")
-      | some exps =>
-        match mapRefs fi gi mi s.elems, mapRefs fi gi mi s.raws with
-        | none, _ => (s, Ret.panic "element refers to a deleted function")
-        | _, none => (s, Ret.panic "constant expression refers to a deleted function or global")
-        | some elems, some raws =>
-          -- code: emitted local functions in vector order, sites fixed in place
-          match fixOwned fi gi mi s.code (emittedLocals fi) with
-          | none => (s, Ret.panic "Deleted function/global/memory referenced from code")
-          | some code' =>
-            let s : St := { s with code := storeBack s.code code' }
-            -- data: offset expression in place, memory index on the fly
-            match s.datas.mapM (fixData fi gi mi) with
-            | none => (s, Ret.panic "data segment refers to a deleted memory or global")
-            | some ds =>
-              let s : St := { s with datas := ds.map (fun (d : (Ref × List Ref) × Ref) => d.1) }
-              let resolved : List Ref :=
-                (ginit'.flatMap (fun (p : Nat × List Ref) => p.2)) ++ exps ++ elems ++ raws
-                  ++ (code'.flatMap (fun (p : Nat × List Ref) => p.2))
-                  ++ (ds.flatMap (fun (d : (Ref × List Ref) × Ref) => d.2 :: d.1.2))
-              (s, Ret.encoded fspace gspace mspace resolved start')
+    let s1 : St := { s with f := { s.f with items := fi }, g := { s.g with items := gi }, m := { s.m with items := mi },
+                            start := start' }
+    match fixAll fi gi mi s with
+    | none => (s1, Ret.panic "reference to a deleted function, global or memory")
+    | some x =>
+      -- index spaces of the output: imports in `imports` order, then the locals of each vector in vector order
+      let fspace := impUids s.imports Sp.F ++ emittedLocals fi
+      -- the memory loop does not test `deleted`
+      let mspace := impUids s.imports Sp.M ++ (mi.filter (fun (i : Item) => !i.imp)).map (fun (i : Item) => i.uid)
+      let gspace := impUids s.imports Sp.G ++ emittedLocals gi
+      let s2 : St := { s1 with ginit := storeBack s.ginit x.ginit, code := storeBack s.code x.code,
+                               datas := x.datas.map (fun (d : (Ref × List Ref) × Ref) => d.1) }
+      (s2, Ret.encoded fspace gspace mspace x.resolved start')
   | _, _, _ => (s, Ret.panic "assertion failed: items.len() == id_mapping.len()")
 
 def mkItem (id : Nat) (imp : Bool) (uid : Nat) (impId : Nat) : Item :=
